@@ -441,4 +441,35 @@ theorem createTable_spec (w : World) (hI : NodeInv w) (n : Nat) (hn : n < w.node
     · show (w1.tableOf w.tables.size).node = n
       rw [htab1]
 
+
+theorem of_removeTable (w : World) (t : Nat) (ht : t < w.tables.size) (hz : (w.tableOf t).rows.size = 0) :
+    SameRows w (w.removeTable t) := by
+  unfold removeTable
+  simp only []
+  have hs1 : SameRows w (w.setNode (w.tableOf t).node { w.nodeOf (w.tableOf t).node with
+      tmap := assocDel (w.nodeOf (w.tableOf t).node).tmap (w.tableOf t).target,
+      free := (w.nodeOf (w.tableOf t).node).free ++ [(w.tableOf t).k] }) := of_setNode _ _ _ ⟨rfl, rfl, rfl⟩
+  generalize hw1 : w.setNode (w.tableOf t).node { w.nodeOf (w.tableOf t).node with
+      tmap := assocDel (w.nodeOf (w.tableOf t).node).tmap (w.tableOf t).target,
+      free := (w.nodeOf (w.tableOf t).node).free ++ [(w.tableOf t).k] } = w1 at *
+  have ht1 : t < w1.tables.size := by rw [← hw1]; exact ht
+  have htb : w1.tableOf t = w.tableOf t := by rw [← hw1]; rfl
+  have hs2 : SameRows w1 (w1.setTable t { w.tableOf t with active := false, rows := #[] }) := by
+    apply sameRows_setTable_rows w1 t _ ht1
+    · rw [htb]; exact (Array.eq_empty_of_size_eq_zero hz).symm
+    · rw [htb]
+  exact trans (trans hs1 hs2) (of_cacheRemove _ _)
+
+theorem of_cleanupTable (w : World) (t : Nat) (ht : t < w.tables.size) : SameRows w (w.cleanupTable t) := by
+  unfold cleanupTable
+  simp only []
+  split
+  · exact refl w
+  · rename_i hc
+    split
+    · exact refl w
+    · apply of_removeTable w t ht
+      simp only [Bool.or_eq_true, decide_eq_true_eq, not_or] at hc
+      omega
+
 end Arche.SameRows
